@@ -136,6 +136,9 @@ def render_schema(sid, s):
         t += "  algebra:\n    __include: inc:/algebra\n"        # the algebra comes from a third file
     elif s.get("algebra"):
         t += "  algebra:\n" + "".join("    - %s\n" % q(a) for a in s["algebra"])
+    for sec in ("punctuator", "key_binder", "recognizer"):
+        if sec in (s.get("presets") or []):
+            t += "%s:\n  import_preset: mypunct\n" % sec         # LegacyPresetConfigPlugin: a third file
     t += "translator:\n  dictionary: %s\n" % s["dict"]
     if s.get("prism"):
         t += "  prism: %s\n" % s["prism"]
@@ -162,6 +165,7 @@ def render(state):
     dicts {name: {rows[(text, code, weight|None)], imports[], vocabulary?: name, sort?}};
     custom {id|'default': {path: value}} (rendered as <id>.custom.yaml patch, in user/);
     vocab {name: [(text, weight)]} (rendered as shared/<name>.txt);
+    preset {punct[], bindings[], patterns[]} (shared/mypunct.yaml, named by `import_preset` of schemas with presets[]);
     inc {algebra[]} (shared/inc.yaml, __include'd by schemas with include_algebra);
     user_default [ids] / user_schemas {id: ...} / user_dicts {name: ...}: copies in the user
     directory that shadow the shared files of the same name (the resolvers look there first)."""
@@ -188,6 +192,12 @@ def render(state):
         files["user/%s.custom.yaml" % cid] = t
     for name, rows in state.get("vocab", {}).items():
         files["shared/%s.txt" % name] = "".join("%s\t%d\n" % r for r in rows)
+    if state.get("preset") is not None:
+        pr = state["preset"]
+        t = "punctuator:\n  half_shape:\n" + "".join("    %s: %s\n" % (q(k), q(v)) for k, v in pr["punct"])
+        t += "key_binder:\n  bindings:\n" + "".join("    - {accept: %s, send: %s, when: composing}\n" % (q(a), b) for a, b in pr["bindings"])
+        t += "recognizer:\n  patterns:\n" + "".join("    %s: %s\n" % (k, q(v)) for k, v in pr["patterns"])
+        files["shared/mypunct.yaml"] = t
     if state.get("inc") is not None:
         files["shared/inc.yaml"] = "algebra:\n" + "".join("  - %s\n" % q(a) for a in state["inc"]["algebra"])
     return files
